@@ -232,6 +232,12 @@ Theorem C01_rank_ToArray : forall f ws ta i r b, words_ok ws -> ToArray ws = Som
 Proof. exact rank_ToArray. Qed.
 Print Assumptions C01_rank_ToArray.
 
+Theorem C01_rank_Of : forall ps opt, Sorted.StronglySorted Z.lt ps -> (forall p, In p ps -> 0 <= p) ->
+  exists r, Of ps opt = Some r /\
+    forall f i, 0 <= i < 64 * zlen r -> query f r i = Some (count_below ps i, Z.b2z (member ps i)).
+Proof. exact rank_Of. Qed.
+Print Assumptions C01_rank_Of.
+
 Theorem C01_rank_Get1 : forall f ws i r b, words_ok ws -> query f ws i = Some (r, b) -> Get1 ws i = Some b.
 Proof. exact rank_Get1. Qed.
 Print Assumptions C01_rank_Get1.
